@@ -639,6 +639,7 @@ func runC17(o Opts) *Result {
 		var mu sync.Mutex
 		var log []cbEvent
 		curCall := 0
+		var cancelInCb func()
 		inv := &cache.Invalidator{SkipInterval: skip}
 		slow := time.Duration(0)
 		concurrent := idx%3 == 2
@@ -654,6 +655,9 @@ func runC17(o Opts) *Result {
 				e := cbEvent{call: curCall, idx: c, enter: now()}
 				if v := ctx.Value(callKey{}); v != nil {
 					e.call = v.(int)
+				}
+				if c == 0 && cancelInCb != nil {
+					cancelInCb() // the caller's context is cancelled while the callbacks run: the remaining callbacks still have to run
 				}
 				if slow > 0 {
 					time.Sleep(slow)
@@ -687,9 +691,22 @@ func runC17(o Opts) *Result {
 				mu.Lock()
 				nBefore := len(log)
 				mu.Unlock()
+				// caller contexts: live, already cancelled, or cancelled by the first callback (abandoned requests)
+				cctx, cancel := context.WithCancel(context.WithValue(ctx, callKey{}, c))
+				cancelInCb = nil
+				switch rng.Intn(5) {
+				case 0:
+					cancel()
+					res.count("ctx:cancelled-before")
+				case 1:
+					cancelInCb = cancel
+					res.count("ctx:cancelled-in-callback")
+				}
 				t0 := now()
-				err := inv.Invalidate(context.WithValue(ctx, callKey{}, c))
+				err := inv.Invalidate(cctx)
 				t1 := now()
+				cancel()
+				cancelInCb = nil
 				mu.Lock()
 				ran := log[nBefore:]
 				mu.Unlock()
@@ -702,7 +719,7 @@ func runC17(o Opts) *Result {
 				case errors.Is(err, cache.ErrNothingToInvalidate):
 					obs = "nothing"
 				default:
-					obs = "error:" + err.Error()
+					obs = "error:" + strings.ReplaceAll(err.Error(), " ", "_")
 				}
 				trace = append(trace, obs)
 				res.count("call:" + strings.SplitN(obs, ":", 2)[0])
